@@ -1,6 +1,6 @@
 #!/bin/bash
 # usage: tools-replay-all.sh <ID> [dir]   -- rebuild (release+dbgassert), replay every stored finding of <ID>
-cd "$(dirname "$0")"
+cd "$(dirname "$0")/.."
 ID=$1; DIR=${2:-findings/$ID}
 ( cd harness && cargo build --quiet --release 2>/dev/null && cargo build --quiet --profile dbgassert 2>/dev/null ) || { echo build failed; exit 2; }
 for f in $DIR/*.json; do
